@@ -44,6 +44,8 @@ def _avg_pair_size(ctx, top, ti):
     edges = list(mol.search_tree.edges)
     sizes = []
     for a, b in edges:
+        if a not in mol.nodes or b not in mol.nodes:
+            continue          # stand-in node of a ligand (-lig), taken out of the molecule again after the build
         sa = float(top.volumes[mol.nodes[a].get("template", mol.nodes[a]["resname"])])
         sb = float(top.volumes[mol.nodes[b].get("template", mol.nodes[b]["resname"])])
         sizes.append(0.5 * (sa + sb))
